@@ -452,6 +452,29 @@ def sim_digests(sim) -> Tuple[int, int]:
     return _num(loose), _num(strict)
 
 
+_AMBIENT = {"installed": False, "base": 0, "n": 0}
+
+
+def _control_ambient_entropy(seed: int):
+    """gymnasium spaces draw their generator from OS entropy when nobody seeds them (``random-agent`` samples from a
+    freshly made space every step): an ambient input of a run, not part of the scenario.  In the harness process only,
+    an unseeded ``seeding.np_random()`` gets a reproducible seed, restarted at every trajectory (DESIGN.md 4.5)."""
+    import gymnasium.utils.seeding as sd
+
+    if not _AMBIENT["installed"]:
+        orig = sd.np_random
+
+        def np_random(seed=None):
+            if seed is None:
+                _AMBIENT["n"] += 1
+                seed = (_AMBIENT["base"] * 100003 + _AMBIENT["n"]) % (2 ** 31)
+            return orig(seed)
+
+        sd.np_random = np_random
+        _AMBIENT["installed"] = True
+    _AMBIENT["base"], _AMBIENT["n"] = seed, 0
+
+
 def run_trajectory(cfg: Dict[str, Any], steps: int, seed: int) -> Dict[str, Any]:
     """Build, then ``steps`` seeded steps; proxy agents get seeded random action indices (by ref)."""
     import numpy as np
@@ -459,6 +482,7 @@ def run_trajectory(cfg: Dict[str, Any], steps: int, seed: int) -> Dict[str, Any]
 
     random.seed(seed)
     np.random.seed(seed)
+    _control_ambient_entropy(seed)
     out: Dict[str, Any] = {"loose": [], "strict": [], "agents": [], "exc": ""}
     try:
         game = PrimaiteGame.from_config(copy.deepcopy(cfg))
